@@ -58,10 +58,6 @@ pub fn describe_day(day: &[K; 1440]) -> String {
     }
 }
 
-fn could_spill(e: &OpeningHoursExpression) -> bool {
-    e.rules.iter().any(|r| model::spans(&r.time_selector).iter().any(|(_, b)| *b > 1440))
-}
-
 /// Compare one day; returns the model's day info for non-triviality accounting.
 pub fn compare_day(
     oh: &OpeningHours,
@@ -114,17 +110,11 @@ fn semantics(ch: &mut Choices, case: &mut Case) -> Result<(), String> {
         .with_context(Context::default().with_holidays(holidays.holidays.clone()));
     let dates = DateGen::new(&ast, base_year, &holidays.model);
     let n_dates = 12;
-    let spill_possible = could_spill(&ast);
     let mut nontrivial = false;
     for _ in 0..n_dates {
         let d = dates.draw(ch, true);
         if let Some(tag) = model::undecided_at(&ast, d.year()) {
             case.exclude(format!("undecided:{tag}"));
-            continue;
-        }
-        if spill_possible && d == NaiveDate::from_ymd_opt(1900, 1, 1).unwrap() {
-            // whether 1899-12-31 spills into the first supported day is not documented
-            case.exclude("undecided:spill-into-1900-01-01");
             continue;
         }
         case.units += 1;
@@ -205,8 +195,7 @@ fn sweep(ch: &mut Choices, case: &mut Case) -> Result<(), String> {
         .map_err(|e| e.to_string())?
         .with_context(Context::default().with_holidays(holidays.holidays.clone()));
     opening_hours::verif_hooks::set_limit(None);
-    let spill_possible = could_spill(&ast);
-    let mut d = NaiveDate::from_ymd_opt(1900, 1, if spill_possible { 2 } else { 1 }).unwrap();
+    let mut d = NaiveDate::from_ymd_opt(1900, 1, 1).unwrap();
     let end = NaiveDate::from_ymd_opt(9999, 12, 31).unwrap();
     let mut applied = 0u64;
     let mut undecided_year = (0, false);
